@@ -267,6 +267,15 @@ def check(chk: Check) -> None:
                     '; '.join(problems) or 'rules out len >= %d; over-cap side raises ParserError and nothing else' % CAP)
     for key, (ok, wh, det) in sorted(growth_seen.items()):
         chk.require(ok, R2, key, wh, det)
+    # sequence repetition accepts whatever has __index__: a number class of the package that grows one turns every literal into a
+    # repeat count for `list *= n` / `str * n` (decimal.Decimal deliberately has none)
+    for cq, ci in sorted(F.classes.items()):
+        if '.ply' in ci.module.name:
+            continue
+        if any(b in ('decimal.Decimal', 'float', 'fractions.Fraction') for b in F.ext_bases(cq)) and '__index__' in ci.methods:
+            amp_seen['%s defines __index__' % cq] = (False, '%s:%d' % (ci.module.rel, ci.methods['__index__'].lineno),
+                                                    'with __index__ the language\'s numbers are accepted as repeat counts: `x = [1, 2, 3]; x *= 5000` builds a '
+                                                    '15000-element list (the compound assignments apply the native operator and relied on the TypeError)')
     for key, (ok, wh, det) in sorted(amp_seen.items()):
         chk.require(ok, R3, key, wh, det)
     from . import common as _common
